@@ -37,7 +37,8 @@ META = {
                    "source is type-analysed by the repository environment's Cython front end, converted to the same AST as "
                    "the Python side, both are expanded into decision tables over their inputs and compared on every "
                    "combination of their atomic conditions; C-only semantics (cdivision, 32-bit float/int) are checked on "
-                   "the typed tree.",
+                   "the typed tree."
+                   " Round 3: every global name used in a module with a fast/fallback switch is bound there (symtable); the pair splitter understands the if/else form of a fast path.",
     "assumptions": ["conditions are side-effect free (operands of and/or compared as sets)",
                     "datetime/timedelta arithmetic is the same object arithmetic on both sides",
                     "timedelta microseconds are 0 for slot-aligned dates (lemma L1 is exact anyway)"],
